@@ -872,13 +872,16 @@ theorem NetSt.tFrame.tcpAttach {n m : NetSt} (h : n.tFrame m) (now : Int) (peer 
     · exact (h1.setTcp _ _).setChan _ _
     · exact h1
 
-theorem NetSt.tFrame.accClose {n m : NetSt} (h : n.tFrame m) (now : Int) (name : String) :
-    n.tFrame (m.accClose now name).1 := by
-  unfold NetSt.accClose
+theorem NetSt.tFrame.of_closeEff {n m : NetSt} {name : String} (e : CloseEff n m name) : n.tFrame m := by
+  refine ⟨e.udps, e.regU, e.cfg, by rw [e.flen]; exact Nat.le_refl _, fun g _ => ?_⟩
+  rw [e.ft]
   split
-  · exact h
-  · dsimp only
-    exact (h.setTcp _ _).tcpClose _ _
+  · exact Or.inr rfl
+  · exact Or.inl rfl
+
+theorem NetSt.tFrame.accClose {n m : NetSt} (h : n.tFrame m) (now : Int) (name : String) :
+    n.tFrame (m.accClose now name).1 :=
+  h.trans (NetSt.tFrame.of_closeEff (accClose_eff m now name))
 
 theorem NetSt.tFrame.accListen {n m : NetSt} (h : n.tFrame m) (name : String) (qs : Int) :
     n.tFrame (m.accListen name qs).1 := by
@@ -1158,7 +1161,7 @@ theorem NS.step_deliver_tcp (s : NS) (f : Nat) (p : Pkt) (name : String) (hf : s
     (hu : s.n.udp? name = none) : s.step (.deliver f p) = s := by
   simp only [NS.step, hf, hu]
 
-theorem DInv.deliver {s : NS} (h : DInv s) (hr : RInv s) (f : Nat) (p : Pkt) : DInv (s.step (.deliver f p)) := by
+theorem DInv.deliver {s : NS} (h : DInv s) (hr : RegInv s) (f : Nat) (p : Pkt) : DInv (s.step (.deliver f p)) := by
   cases hf : s.n.fwdTarget f with
   | none => rw [NS.step_deliver_none s f p hf]; exact h
   | some name =>
@@ -1229,7 +1232,7 @@ theorem DInv.uMove {s : NS} (h : DInv s) (src dst : String) : DInv (s.step (.uMo
           exact h.fifo x
   · exact h
 
-theorem DInv.step {s : NS} (h : DInv s) (hr : RInv s) (l : NLbl) : DInv (s.step l) := by
+theorem DInv.step {s : NS} (h : DInv s) (hr : RegInv s) (l : NLbl) : DInv (s.step l) := by
   by_cases ht : l.isTcp = true
   · obtain ⟨ha, ho⟩ := NS.step_tcp_ghost s l ht
     exact h.ctl _ ha ho (NetSt.udpSame.of_udps (NS.step_tcp_udps s l ht).1)
@@ -1327,7 +1330,7 @@ theorem DInv.step {s : NS} (h : DInv s) (hr : RInv s) (l : NLbl) : DInv (s.step 
   case deliver f p => exact h.deliver hr f p
 
 theorem DInv.run (c : NetCfg) (hc : c.WF) (ls : List NLbl) : DInv ((NS.init c).run ls) := by
-  suffices H : ∀ (s : NS), DInv s → RInv s → DInv (s.run ls) from H _ (DInv.init c) (RInv.init c hc)
+  suffices H : ∀ (s : NS), DInv s → RegInv s → DInv (s.run ls) from H _ (DInv.init c) (RegInv.init c hc)
   induction ls with
   | nil => intro s h _; exact h
   | cons l ls ih => intro s h hr; exact ih (s.step l) (h.step hr l) (hr.step l)
@@ -1383,12 +1386,12 @@ theorem NLbl.kinds (l : NLbl) :
   cases l <;> simp [NLbl.isTcp, NLbl.keepsFwds]
 
 /-- the forwarder a live UDP socket holds is allocated and reaches that socket -/
-theorem RInv.udp_fwd_lt {s : NS} (h : RInv s) {f : Nat} {name : String} {u : UdpSock}
+theorem RegInv.udp_fwd_lt {s : NS} (h : RegInv s) {f : Nat} {name : String} {u : UdpSock}
     (hu : s.n.udp? name = some u) (hf : u.fwd = some f) : f < s.n.fwds.length :=
   fwdTarget_lt _ _ _ (h.udp_fwd hu hf).2
 
 /-- the forwarder a live TCP object holds is allocated and reaches that object -/
-theorem RInv.tcp_fwd {s : NS} (h : RInv s) {f : Nat} {name : String} {t : TcpSock}
+theorem RegInv.tcp_fwd {s : NS} (h : RegInv s) {f : Nat} {name : String} {t : TcpSock}
     (ht : s.n.tcp? name = some t) (hf : t.fwd = some f) :
     s.n.fwdTarget f = some name ∧ f < s.n.fwds.length := by
   have h1 : s.n.fwdTarget f = some name :=
@@ -1397,7 +1400,7 @@ theorem RInv.tcp_fwd {s : NS} (h : RInv s) {f : Nat} {name : String} {t : TcpSoc
 
 /-- **A detached forwarder stays detached.** Once a forwarder id has been allocated and points
     nowhere, no label re-attaches it. -/
-theorem detached_step {s : NS} (hr : RInv s) {f : Nat} (hn : s.n.fwdTarget f = none)
+theorem detached_step {s : NS} (hr : RegInv s) {f : Nat} (hn : s.n.fwdTarget f = none)
     (hl : f < s.n.fwds.length) (l : NLbl) :
     (s.step l).n.fwdTarget f = none ∧ f < (s.step l).n.fwds.length := by
   rcases l.kinds with ht | hk | ⟨name, v4, e⟩ | ⟨name, e⟩ | ⟨name, e⟩ | ⟨src, dst, e⟩
@@ -1467,7 +1470,7 @@ theorem detached_step {s : NS} (hr : RInv s) {f : Nat} (hn : s.n.fwdTarget f = n
       · exact hn
     · exact ⟨hn, hl⟩
 
-theorem detached_run {s : NS} (hr : RInv s) {f : Nat} (hn : s.n.fwdTarget f = none)
+theorem detached_run {s : NS} (hr : RegInv s) {f : Nat} (hn : s.n.fwdTarget f = none)
     (hl : f < s.n.fwds.length) (ls : List NLbl) :
     (s.run ls).n.fwdTarget f = none ∧ f < (s.run ls).n.fwds.length := by
   induction ls generalizing s with
@@ -1476,7 +1479,7 @@ theorem detached_run {s : NS} (hr : RInv s) {f : Nat} (hn : s.n.fwdTarget f = no
     have := detached_step hr hn hl l
     exact ih (hr.step l) this.1 this.2
 
-theorem RInv.run' {s : NS} (hr : RInv s) (ls : List NLbl) : RInv (s.run ls) := by
+theorem RegInv.run' {s : NS} (hr : RegInv s) (ls : List NLbl) : RegInv (s.run ls) := by
   induction ls generalizing s with
   | nil => exact hr
   | cons l ls ih => exact ih (hr.step l)
@@ -1602,7 +1605,7 @@ theorem NS.step_keeps (s : NS) (l : NLbl) (name : String) (u : UdpSock) (hu : s.
 
 /-- **A forwarder keeps reaching its socket** under every label that does not close, destroy,
     re-open or move that very socket. -/
-theorem fwd_kept_step {s : NS} (hr : RInv s) {f : Nat} {name : String} {u : UdpSock}
+theorem fwd_kept_step {s : NS} (hr : RegInv s) {f : Nat} {name : String} {u : UdpSock}
     (hu : s.n.udp? name = some u) (hf : s.n.fwdTarget f = some name) (l : NLbl)
     (hl : l.detaches name = false) : (s.step l).n.fwdTarget f = some name := by
   obtain ⟨u', h1, h2, _, _⟩ := NS.step_keeps s l name u hu hl
@@ -1760,7 +1763,7 @@ theorem udpRoute_some (n : NetSt) (src dst : Ep) (tgt : String) (t : UdpSock)
 
 /-- under the registry invariant the registered socket exists, is open, bound to exactly that
     endpoint, and holds an attached forwarder -/
-theorem RInv.reg_target {s : NS} (h : RInv s) {dst : Ep} {tgt : String}
+theorem RegInv.reg_target {s : NS} (h : RegInv s) {dst : Ep} {tgt : String}
     (hl : s.n.reg.udp.lookup dst = some tgt) :
     ∃ t f, s.n.udp? tgt = some t ∧ t.isOpen = true ∧ t.bound = dst ∧ t.fwd = some f
       ∧ s.n.fwdTarget f = some tgt := by
@@ -1779,7 +1782,7 @@ theorem RInv.reg_target {s : NS} (h : RInv s) {dst : Ep} {tgt : String}
 
 /-! ### close, destroy, re-open: the forwarder is detached -/
 
-theorem close_like_detaches {s : NS} (hr : RInv s) {name : String} {u : UdpSock} {f : Nat}
+theorem close_like_detaches {s : NS} (hr : RegInv s) {name : String} {u : UdpSock} {f : Nat}
     (hu : s.n.udp? name = some u) (hf : u.fwd = some f) (l : NLbl)
     (hl : l = .uClose name ∨ l = .uDestroy name ∨ ∃ v4, l = .uOpen name v4) :
     (s.step l).n.fwdTarget f = none ∧ f < (s.step l).n.fwds.length := by
